@@ -25,15 +25,14 @@ Definition single_output (r : frow) : bool :=
 Definition name_in (l : list (string * string)) (r : frow) : bool :=
   existsb (fun pn => String.eqb (fst pn) (f_pkg r) && String.eqb (snd pn) (f_name r)) l.
 
-(* Functions whose decision is not keyed on a completion flag (reported defects / findings):
-   err-keyed or shadowed-err deferred commit: a panicking body publishes the partial file;
-   no defer at all: a panicking body leaves the staging file (or the reserved new output) behind. *)
+(* Functions whose commit/cleanup decision is not deferred (DNoDefer): nothing runs when their body
+   panics, so a panic leaves the staging file (or the reserved new output) behind.  For WriteReader / Write
+   the only panic source inside the body is the caller's io.Reader; CopyFile copies from an *os.File.
+   Every other single-output function must be keyed on a completion flag. *)
 Definition panic_unsafe : list (string * string) :=
-  [ ("api", "MergeCreateFile"); ("api", "MergeCreateZipFile"); ("pdfcpu", "WriteContext");
-    ("api", "WriteContextFile"); ("api", "CreatePDFFile");
-    ("pdfcpu", "WriteReader"); ("pdfcpu", "CopyFile"); ("pdfcpu", "Write") ].
-(* the one function that is unsafe even when the body just returns an error *)
-Definition error_unsafe : list (string * string) := [ ("pdfcpu", "WriteContext") ].
+  [ ("api", "CreatePDFFile"); ("pdfcpu", "WriteReader"); ("pdfcpu", "CopyFile"); ("pdfcpu", "Write") ].
+(* no function is unsafe when the body just returns an error *)
+Definition error_unsafe : list (string * string) := [].
 
 Definition row_flag_ok (r : frow) : bool :=
   implb (single_output r && negb (name_in panic_unsafe r)) (dkey_eqb (f_key r) DFlag).
@@ -55,12 +54,12 @@ Proof.
 Qed.
 
 Lemma all_file_functions_fault_safe_proof :
-  forall r, In r table -> single_output r = true -> name_in error_unsafe r = false ->
+  forall r, In r table -> single_output r = true ->
   exists k, key_of_dkey (f_key r) = Some k /\ forall fin, fin <> CPanic -> safe_for k fin.
 Proof.
   assert (Hall : forallb row_fault_ok table = true) by (vm_compute; reflexivity).
-  intros r Hin Hs Hn. rewrite forallb_forall in Hall. specialize (Hall r Hin).
-  unfold row_fault_ok in Hall. rewrite Hs, Hn in Hall. cbn in Hall.
+  intros r Hin Hs. rewrite forallb_forall in Hall. specialize (Hall r Hin).
+  unfold row_fault_ok in Hall. rewrite Hs in Hall. cbn in Hall.
   apply orb_true_iff in Hall. destruct Hall as [Hall|Hall]; [apply orb_true_iff in Hall; destruct Hall as [Hall|Hall]|];
     apply dkey_eqb_eq in Hall; rewrite Hall; eexists; (split; [reflexivity|]); intros fin Hf.
   - left. reflexivity.
@@ -73,5 +72,7 @@ Lemma table_nonvacuous_proof :
   existsb (fun r => String.eqb (f_name r) "TrimFile" && dkey_eqb (f_key r) DFlag) table = true /\
   existsb (fun r => String.eqb (f_name r) "MergeAppendFile" && dkey_eqb (f_key r) DFlag) table = true /\
   existsb (fun r => String.eqb (f_name r) "writeCutOutputWith" && dkey_eqb (f_key r) DFlag) table = true /\
+  existsb (fun r => String.eqb (f_name r) "WriteContext" && dkey_eqb (f_key r) DFlag) table = true /\
+  existsb (fun r => String.eqb (f_name r) "MergeCreateFile" && dkey_eqb (f_key r) DFlag) table = true /\
   60 <= length (filter single_output table).
 Proof. vm_compute. repeat split; try reflexivity. repeat constructor. Qed.
